@@ -35,6 +35,7 @@ ASSUMPTIONS = ['dense numpy arithmetic (matrix export("dense") @ x, checked sepa
                'requested tolerance is read from the call: max(atol, rtol*|b_free|) for Matrix.solve, tol for System.solve, newtontol for thetamethod',
                'atol = rtol = 0 promises no number: only finiteness, constraints and (for exact solver configurations) independence of the initial guess within 1e3*cond*eps are demanded',
                'non-finite matrix/rhs (or norms that overflow): only finiteness and constraints of a RETURNED vector are demanded; non-finite lhs0/constraint values are outside the domain (counted)',
+               'initial-guess independence: 1e3*cond*eps for factorisations, 1e3*cond^2*eps for the arnoldi iteration with an inexact preconditioner (GCR-type iteration, not backward stable)',
                'direct solver with an inexact preconditioner, and truncated arnoldi with an inexact preconditioner, are excluded from the initial-guess-independence monitor at atol = rtol = 0 (they make no exactness claim); discrepancy recorded as information',
                'termination is not judged: every solve is bounded by maxiter and the per-case watchdog only yields inconclusive-for-that-case',
                'MKL backend not installable offline: not covered']
@@ -299,7 +300,10 @@ def check_independence(g, xa, xb, kwa, kwb, res, M=None):
     tola, tolb = tolof(x0a), tolof(x0b)
     d = mon.colnorm(numpy.asarray(xa) - numpy.asarray(xb))
     scale = max(mon.colnorm(xa), mon.colnorm(xb), float(numpy.linalg.norm(x0a)), float(numpy.linalg.norm(x0b)))
-    bound = (tola + tolb) / float(sv[-1]) * (1 + 1e-6) + 1e3 * cond * mon.EPS * scale
+    # a factorisation is backward stable (error ~ cond*eps); the GCR-type arnoldi iteration with an INEXACT preconditioner stagnates
+    # earlier on ill-conditioned matrices, it is only held to cond^2*eps (vacuous beyond cond ~ 1e6, sharp for well-conditioned ones)
+    condfac = cond ** 2 if (g['solver'] == 'arnoldi' and g['precon'] not in gen.EXACT_PRECON) else cond
+    bound = (tola + tolb) / float(sv[-1]) * (1 + 1e-6) + 1e3 * condfac * mon.EPS * scale
     exact = gen.exact_config(g['solver'], g['precon'], g['truncate'])
     if tola == 0 and tolb == 0 and not exact:
         res.count('L/independence/inexact-config-at-tol0-skipped')
@@ -320,7 +324,7 @@ def check_independence(g, xa, xb, kwa, kwb, res, M=None):
         if mech is None and g['cplx'] and g['solver'] == 'arnoldi' and g['precon'] in ('diag', 'spilu', 'spilu0'):
             # known mechanism: complex matrix + arnoldi with an inexact preconditioner (more than one Krylov vector: conjugation slip in the orthogonalisation)
             mech = COMPLEX_ARNOLDI_FINDING
-        S.violate('independence', f'two start vectors give solutions differing by {d:.3e} > bound {bound:.3e} (cond {cond:.2e}, tolerances {tola:.1e}/{tolb:.1e}, '
+        S.violate('independence', f'two start vectors give solutions differing by {d:.3e} > bound {bound:.3e} (cond {cond:.2e}, condition factor used {condfac:.2e}, tolerances {tola:.1e}/{tolb:.1e}, '
                   f'solver {g["solver"]}/{g["precon"]}, truncate {g["truncate"]}); xa={numpy.asarray(xa).tolist()} xb={numpy.asarray(xb).tolist()}', mech)
 
 
